@@ -75,7 +75,11 @@ func runRace(c Case) (*core.Violation, int) {
 			defer wg.Done()
 			<-start
 			for r := 0; r < raceReps; r++ {
-				outs[i] = append(outs[i], exec.Run(context.Background(), pr, vars, st, flags))
+				o := exec.Run(context.Background(), pr, vars, st, flags)
+				if c.Scribble {
+					o.Scribble()
+				}
+				outs[i] = append(outs[i], o)
 			}
 		}()
 	}
@@ -184,12 +188,14 @@ func withParsedVariables(r *rand.Rand, c Case) Case {
 
 func raceReplay(c Case) (*core.Violation, *core.Trace, error) {
 	tr := core.NewTrace(true)
-	for i := 0; i < 50; i++ {
+	// few attempts per process: state the code under test initialises lazily is only cold
+	// once per process, so the driver repeats the replay in fresh processes instead
+	for i := 0; i < 3; i++ {
 		if v, _ := runRace(c); v != nil {
 			tr.Add("attempt %d: %s", i+1, v.Detail)
 			return v, tr, nil
 		}
 	}
-	tr.Add("50 attempts, no divergence and no race report")
+	tr.Add("3 attempts in this process, no divergence and no race report")
 	return nil, tr, nil
 }
